@@ -401,6 +401,30 @@ class Verdict:
         return 1 if self.violations else 0
 
 
+def binding_selftest(name, trace_path, corruptions, validate):
+    """Anti-vacuity: every corruption of an ACCEPTED recorded trace must be noticed by the trace specification.
+    corruptions: list of (label, fn(list_of_event_dicts) -> bool) that modify the events in place (return False if not applicable);
+    validate(path) -> (n_viol, n_drift) runs the trace validation on a file. Raises CheckError when a corruption goes unnoticed."""
+    with open(trace_path) as f:
+        lines = [json.loads(x) for x in f if x.strip()]
+    results = []
+    for label, fn in corruptions:
+        evs = json.loads(json.dumps(lines))
+        if not fn(evs):
+            results.append(dict(corruption=label, applicable=False))
+            continue
+        path = trace_path + ".corrupt"
+        with open(path, "w") as f:
+            for e in evs:
+                f.write(json.dumps(e) + "\n")
+        nv, nd = validate(path)
+        results.append(dict(corruption=label, applicable=True, violations=nv, drift=nd))
+        if nv + nd == 0:
+            raise CheckError("binding self-test of %s: the corruption '%s' of a recorded trace was NOT noticed by the trace specification" % (name, label))
+        log("self-test %s: corruption '%s' noticed (violations=%d, drift=%d)" % (name, label, nv, nd))
+    return results
+
+
 def main_wrapper(fn):
     try:
         rc = fn()
